@@ -38,6 +38,9 @@ func main() {
 	st := lib.NewStats("C12", "block trees on the real regnet BlockChain (fixture): trunk 1-6, 1-3 forks of depth 1-5 (25% forking off an earlier fork), <= 12 blocks, 35% with one context-invalid block (over-paying coinbase or double spend of the genesis output) inside a branch that ends above the trunk, 10% with an insane (no PoW) block; plus deep proof-of-work forks (7-15 below the tip, first side blocks delivered early, trunk grows, fork overtakes late); delivery natural / reversed (orphans first) / shuffled, 20% with a repeated delivery. nontrivial = history with a reorganisation, an orphan or an error; distinct by observation log")
 	sh := &lib.Shards{Dir: run.Out, Imports: "From ELA Require Import corr.C12_corr.", CaseType: "C12_corr.case",
 		Mismatch: "C12_corr.mismatches", Scope: "Z", PerShard: 10}
+	if run.Thorough() {
+		sh.PerShard = 40
+	}
 	id := 0
 
 	doHist := func(h *chaincase.Hist) {
@@ -192,13 +195,13 @@ func main() {
 		ord := []int{1, 2, 3, 4, 5, 6, 7, 8, 9, 10, 13, 14, 15, 16, 11, 12, 17, 18, 19, 20, 21, 22, 23, 24, 25}
 		doHist(&chaincase.Hist{Name: "deep-fork-overtakes", Blocks: bs, Order: ord})
 	}
-	for i := 0; i < run.N(4, 150); i++ {
+	for i := 0; i < run.N(4, 100); i++ {
 		bs, ord := chaincase.DeepFork(rng.Fork())
 		doHist(&chaincase.Hist{Name: fmt.Sprintf("deep-%d", i), Blocks: bs, Order: ord})
 	}
 
 	// ---- generated
-	n := run.N(45, 1500)
+	n := run.N(45, 800)
 	for i := 0; i < n; i++ {
 		r := rng.Fork()
 		bs := chaincase.Tree(r, 12, 5, 35, 10)
